@@ -33,7 +33,7 @@ def run_serde(ctx, belongs, builds=(("preserve_order",),)):
         evp = ctx.path("serde-%s.ev" % ("po" if feats else "plain"))
         ctx.harness(h, ["serde-events", "--seed", ctx.seed, "--n", n_per, "--out", evp])
         mism, _, n = ctx.validate(evp, chunk=4000)
-        for e in core.read_ndjson(evp):
+        for e in core.iter_ndjson(evp):
             ctx.nontrivial.add(json.dumps(e["sdm"], sort_keys=True))
             if len(ctx.samples) < 5 and e["ty"] in ("Opts", "Seqs", "E", "VecOpt") and len(json.dumps(e["sdm"])) < 1500:
                 ctx.sample({"type": e["ty"], "routes": [[r["route"], r["res"], core.uncps(r["text"])[:200]] for r in e["enc"][:2]]})
@@ -63,7 +63,7 @@ def replay(ctx, path, belongs):
     ctx.seed = rp.get("seed", ctx.seed)
     ctx.harness(h, ["serde-events", "--seed", ctx.seed, "--n", 60 if ctx.quick else 3000, "--out", evp])
     want = json.dumps(rp["event"]["sdm"], sort_keys=True)
-    evs = [e for e in core.read_ndjson(evp) if json.dumps(e["sdm"], sort_keys=True) == want]
+    evs = [e for e in core.iter_ndjson(evp) if json.dumps(e["sdm"], sort_keys=True) == want]
     core.write_ndjson(evp, evs[:1])
     mism, _, _ = ctx.validate(evp)
     for m in mism:
